@@ -382,7 +382,7 @@ impl Check for C08 {
         ]
     }
     fn units(&self, tier: Tier) -> Vec<Unit> {
-        vec![Unit::gen("history", 16, tier.pick(4000, 100_000)), Unit::gen("paths", 8, tier.pick(60, 700))]
+        vec![Unit::gen("history", 16, tier.pick(12_000, 100_000)), Unit::gen("paths", 8, tier.pick(150, 1500))]
     }
     fn required_classes(&self, _tier: Tier) -> Vec<&'static str> {
         vec!["accepted_document", "refusable_document", "second_document_or_input", "unspecified_document", "refusal_at_depth", "calls:2", "calls:3", "paths:null", "paths:oversized_int", "paths:nonroot_key_null"]
